@@ -112,6 +112,19 @@ def run(chk):
                 chk.violation("impl", "relative-error-wrong", f"relative_reconstruction_error = {rel}, 100*|d-p|/|d| = {expr}", case)
             exprs.append(f"rel_err2 {C.cqmat(fr_rows(Xt))} {C.cqmat(fr_rows(pred))}")
             meta.append(("rel", rel * rel, 1e-9, {**case, "what": "relative error"}))
+        # the same for data held in narrow integer types (pixel data) and float32: the definition is about the numbers, not the dtype
+        for dt, lo, hi in ((np.uint8, 0, 256), (np.int16, -3000, 3000), (np.float32, -50, 50)):
+            D = rng.integers(lo, hi, size=(3, 6)).astype(dt)
+            Pd = D.astype(float) + rng.integers(-3, 4, size=D.shape)
+            try:
+                got = relative_reconstruction_error(D, Pd)
+                want = 100.0 * np.linalg.norm(D.astype(float) - Pd) / np.linalg.norm(D.astype(float))
+                if not np.isrealobj(got) or abs(float(got) - want) > 1e-5 * (1 + want):
+                    chk.violation("impl", "relative-error-wrong", f"relative_reconstruction_error on {np.dtype(dt).name} data = {got}, 100*|d-p|/|d| = {want}",
+                                  {"data": D.tolist(), "prediction": Pd.tolist(), "dtype": np.dtype(dt).name})
+                chk.count("rel_error_dtype_cases")
+            except Exception as e:
+                chk.violation("impl", "relative-error-raises", f"relative_reconstruction_error on {np.dtype(dt).name} data raised {type(e).__name__}: {e}", {"dtype": np.dtype(dt).name})
         # ---------------- determinant
         pd_ = m if rng.random() < 0.4 else int(rng.integers(m, n + 1))
         Sd = [int(i) for i in model.ranked_sensors_[:pd_]]
